@@ -39,10 +39,16 @@ def _run(cmd, cwd, log_path, timeout):
 def extract_tests(logtxt):
     """Returns list of (kind, description, test_source)."""
     out = []
+    seen = set()
     for m in re.finditer(r"```\n(/// Test generated for harness.*?)```", logtxt, re.S):
         src = m.group(1)
         km = re.search(r"/// Check for `([^`]*)`: (.*)", src)
         kind, desc = (km.group(1), km.group(2)) if km else ("?", "")
+        fm = re.search(r"fn (kani_concrete_playback_\w+)\(", src)
+        name = fm.group(1) if fm else src
+        if name in seen:  # same concrete values printed for several checks: one test is enough
+            continue
+        seen.add(name)
         out.append((kind, desc.strip(), src))
     return out
 
